@@ -8,9 +8,52 @@ def run(ck, model_ok):
                'repeated only to deliver errors for one piece, every value in turn for interval 0, last call done = total unless cancelled, no read/size error or hash mismatch '
                'suppressed by the interval; calls compared with the Coq model; non-trivial = distinct (scenario, seed)')
     pc.run_family(ck, model_ok, 'C12', [('progress', 800, 32000), ('faults', 200, 8000)])
+    many_pieces(ck)
+
+
+def many_pieces(ck):
+    """Runs with many pieces and few hasher threads on real threads (oracle only): piece counts far above any queue size."""
+    import os
+    import pathlib
+    import torf
+    import streamlib as sl
+    from common import Scratch
+    rng = ck.rng
+    with Scratch() as root:
+        for ri in range(3 if ck.tier == 'quick' else 30):
+            threads = (1, 2, 1)[ri % 3]
+            npieces = rng.choice([900, 1100]) if threads == 1 else rng.choice([1700, 2100])
+            L = rng.choice([2, 4])
+            size = npieces * L - rng.choice([0, 1])
+            mode = 'generate'       # verify() needs a valid (16 KiB) piece length: thousands of such pieces are too much data for a quick run
+            case = {'many-pieces': True, 'pieces': npieces, 'threads': threads, 'L': L, 'size': size, 'mode': mode}
+            ck.case(('many-pieces', npieces, threads, L, size, mode))
+            d = os.path.join(root, 'm%d' % ri)
+            os.makedirs(d)
+            contents = sl.gen_content((size,))
+            cp = sl.write_tree(d, contents, single=True)
+            import hashlib
+            hashes = [hashlib.sha1(contents[0][i:i + L]).digest() for i in range(0, size, L)]
+            t = sl.make_torrent((size,), L, single=True, hashes=hashes if mode == 'verify' else None)
+            t._path = pathlib.Path(cp)
+            calls = []
+            try:
+                if mode == 'generate':
+                    res = t.generate(threads=threads, callback=lambda tor, fp, done, total: calls.append((done, total)) and None, interval=0)
+                else:
+                    res = t.verify(cp, threads=threads, callback=lambda tor, fp, done, total, pi, ph, exc: calls.append((done, total)) and None, interval=0)
+            except Exception as e:  # noqa
+                res = ('raised', type(e).__name__)
+            want = [(k, npieces) for k in range(1, npieces + 1)]
+            if res is not True or calls != want:
+                first = next((i for i, (a, b) in enumerate(zip(calls, want)) if a != b), min(len(calls), len(want)))
+                ck.fail('oracle', 'many-pieces:done-counter', case, f'True and done = 1..{npieces} in turn', f'result {res!r}, {len(calls)} calls, first difference at call {first}: {calls[first:first + 3]}',
+                        'with a zero interval the callback must see every value 1..total once and finish with done = total')
 
 
 def replay(rp):
+    if rp['case'].get('many-pieces'):
+        return False, 're-run ./check C12 with the same seed (the run is regenerated from the seed)'
     rec, verdicts = pc.replay_case(rp['case'])
     bad = [v for v in verdicts if v[0] == 'C12']
     return not bad, repr(bad)[:600]
